@@ -17,7 +17,7 @@ META = {
              "non-trivial = plan with >= 2 bins / a forced search that returned a plan"),
     "exhaustive": True,
     "bounds": {
-        "quick": "sweep lattice as C02 quick (incl. the N=60000/100000 spot configurations); force_target_nf: targets 100..400 step 10, N=2000, 4 schedulers; targets 100..400 step 2, N=60000, ltf and lpsd",
+        "quick": "sweep lattice as C02 quick (incl. the N=60000/100000 spot configurations); force_target_nf: targets 100..400 step 10 and 5..95 step 5, N in {2000, 20000}, 4 schedulers; targets 100..400 step 2, N=60000, ltf and lpsd",
         "thorough": "sweep lattice as C02 thorough; force_target_nf: targets 100..400 step 1, N in {2000, 20000, 60000}, 4 schedulers",
     },
     "assumptions": ["'no clamp active' is decided by a reference procedure written from the scheduler documentation's targets",
@@ -28,14 +28,19 @@ META = {
 def shards(tier, seed):
     out = sched.shards_for(tier, seed, PROPERTY)
     step = 10 if tier == "quick" else 1
-    targets = list(range(100, 401, step))
-    Ns = [2000] if tier == "quick" else [2000, 20000]
+    targets = list(range(100, 401, step)) + list(range(5, 100, 5 if tier == "quick" else 1))
+    Ns = [2000, 20000] if tier == "quick" else [2000, 20000]
     chunk = 4 if tier == "quick" else 16
     force = []
     for N in Ns:
         for name in sched.SCHEDS:
-            for i in range(0, len(targets), chunk):
-                force.append({"prop": "C04", "force": True, "N": N, "sched": name, "targets": targets[i:i + chunk]})
+            tg = targets
+            if tier == "quick" and N > 2000:   # long record in the quick tier: small targets (below the smallest reachable count) and a few large ones
+                if name == "vectorized_ltf":
+                    continue
+                tg = list(range(5, 100, 10)) + [100, 200, 300, 400]
+            for i in range(0, len(tg), chunk):
+                force.append({"prop": "C04", "force": True, "N": N, "sched": name, "targets": tg[i:i + chunk]})
     # long records (the search takes ~1 s per target there): every second target for the iterative schedulers
     big_targets = list(range(100, 401, 2 if tier == "quick" else 1))
     for name in (("ltf", "lpsd") if tier == "quick" else sched.SCHEDS):
